@@ -35,7 +35,7 @@ Init == /\ shape \in Shapes
         /\ layout \in {"C", "F", "transposed", "strided", "readonly"}
         /\ others \in {"moved", "scaled", "leave-domain", "huge", "zero", "clustered"}      \* clustered: all elements within 1e-6 relative of the target (|x| > 1), then the others moved away
         /\ m \in {"central", "forward", "backward", "complex", "multicomplex"}
-        /\ n \in 1..6 /\ o \in {2, 4, 6}          \* rules of up to 11 terms (reductions over 8 and more terms are where summation orders start to differ)
+        /\ n \in 0..6 /\ o \in {2, 4, 6}          \* rules of up to 11 terms (reductions over 8 and more terms are where summation orders start to differ)
         /\ (m = "multicomplex" => n <= 2)
         /\ (Len(shape) < 2 => layout = "C")
 Next == UNCHANGED vars
